@@ -13,6 +13,7 @@ import (
 type Cache struct {
 	entries map[string]clientEntries
 	mux     sync.RWMutex
+	maxSkew time.Duration // longest clock skew any user of the cache accepts
 }
 
 // clientEntries holds entries of client details sent to the service.
@@ -52,16 +53,33 @@ func GetReplayCache(d time.Duration) *Cache {
 	once.Do(func() {
 		replayCache = Cache{
 			entries: make(map[string]clientEntries),
+			maxSkew: d,
 		}
 		go func() {
 			for {
 				// TODO consider using a context here.
-				time.Sleep(d)
-				replayCache.ClearOldEntries(d)
+				time.Sleep(replayCache.skew())
+				replayCache.ClearOldEntries(replayCache.skew())
 			}
 		}()
 	})
+	// The cache is shared by every user in the process: an entry has to be remembered for the longest
+	// clock skew any of them accepts, not for that of whichever caller happened to create the cache.
+	if d > replayCache.skew() {
+		replayCache.mux.Lock()
+		if d > replayCache.maxSkew {
+			replayCache.maxSkew = d
+		}
+		replayCache.mux.Unlock()
+	}
 	return &replayCache
+}
+
+// skew returns the longest clock skew the cache has been asked for.
+func (c *Cache) skew() time.Duration {
+	c.mux.RLock()
+	defer c.mux.RUnlock()
+	return c.maxSkew
 }
 
 // AddEntry adds an entry to the Cache.
